@@ -50,6 +50,7 @@ type Val struct {
 	Loc *Loc
 	Tup []Val
 	Typ types.Type
+	NonNil bool // known non-nil reference (fresh allocation)
 	// closure bookkeeping (MakeClosure)
 	Fn       *ssa.Function
 	Bindings []Val
@@ -72,6 +73,7 @@ type State struct {
 	alloc  Term
 	defers []deferred
 	ghostCalled map[string]Term // call-history flags: name -> Bool term
+	callRes     map[string]Val  // results of the calls executed so far, by short callee name (#k = k-th call site)
 }
 
 func (s *State) clone() *State {
@@ -86,6 +88,10 @@ func (s *State) clone() *State {
 	n.ghostCalled = map[string]Term{}
 	for k, v := range s.ghostCalled {
 		n.ghostCalled[k] = v
+	}
+	n.callRes = map[string]Val{}
+	for k, v := range s.callRes {
+		n.callRes[k] = v
 	}
 	return n
 }
@@ -109,6 +115,7 @@ type Obligation struct {
 	RegionResult SolverResult
 	HasRegion    bool
 	Retried      bool
+	Candidate    *SolverResult // model of the quantifier-free weakening (to be confirmed by replay)
 }
 
 type InputSym struct {
@@ -146,6 +153,7 @@ type Unit struct {
 	failed   error
 	regions  map[string]Term
 	id       int
+	callRes    map[string]Val
 	bytesCache map[string]Term
 	boundNow   map[string]bool
 	retReach []Term
@@ -222,6 +230,11 @@ func (u *Unit) comment(s string) {
 
 // oblige records a proof obligation and afterwards assumes it (it is checked separately).
 func (u *Unit) oblige(kind string, guard, f Term, kindName, detail, src string) *Obligation {
+	if kind == "safety" && kindName != "safety.overflow" && u.Contract != nil && u.Contract.Opts["safety"] == "assumed" {
+		u.note("absence of run-time panics (nil dereference, index, type assertion) is assumed, not proved, in " + u.FnName)
+		u.assume(guard, f)
+		return &Obligation{}
+	}
 	var name string
 	if detail != "" {
 		key := kindName + "[" + detail + "]"
@@ -242,6 +255,9 @@ func (u *Unit) oblige(kind string, guard, f Term, kindName, detail, src string) 
 		o.Context = "recovered"
 	}
 	o.Inputs = u.inputs
+	if kind == "safety" && (guard.S == "false" || f.S == "true") {
+		return o // statically safe: nothing to prove, not counted
+	}
 	if guard.S == "false" || f.S == "true" {
 		o.Status = "discharged"
 		o.Result = SolverResult{Status: "unsat", Solver: "trivial"}
